@@ -13,6 +13,51 @@ PID = "C20"
 AUTHS = ("digest", "none", "basic", "reject", "digest_unknown")
 
 
+def usage_runs(b, v, root):
+    """Failures (and --help) that never reach the network: flag-parse errors, wrong argument counts, rejected combinations. Whatever
+    the tool prints then - usage text with flag defaults included - must not contain the key, however it was supplied."""
+    import subprocess
+    n = 0
+    priv, pub = "usage-PRIV/key+with=chars 42", "usagePUB"
+    forms = ar.key_forms(priv, pub)
+    base = ["redact", "--atlasProjectId", "p1", "--atlasClusterName", "c1", "-o", "out.log"]
+    variants = [("--help", ["redact", "--help"]), ("-h after the Atlas flags", base + ["-h"]), ("unknown flag", base + ["--no-such-flag"]),
+                ("malformed date value", base + ["--atlasLogStartDate", "yesterday"]), ("two positional arguments", ["redact", "a.log", "b.log"]),
+                ("missing flag value", base + ["--atlasLogEndDate"]), ("one date only", base + ["--atlasLogEndDate", "1700000000"]),
+                ("project without cluster", ["redact", "--atlasProjectId", "p1", "-o", "out.log"]), ("root help", ["--help"]),
+                ("decrypt without argument", ["decrypt"]), ("unknown command", ["redcat"]), ("version", ["version"])]
+    for how in ("env", "flags", "mixed"):
+        for label, args in variants:
+            d = tempfile.mkdtemp(prefix="usage-", dir=root)
+            env = dict(os.environ)
+            for k in ("ATLAS_PUBLIC_KEY", "ATLAS_PRIVATE_KEY", "HTTPS_PROXY", "HTTP_PROXY", "https_proxy", "http_proxy"):
+                env.pop(k, None)
+            env["HTTPS_PROXY"] = "http://127.0.0.1:9"          # nothing may be reached anyway
+            a = list(args)
+            if how in ("env", "mixed"):
+                env["ATLAS_PRIVATE_KEY"] = priv
+                env["ATLAS_PUBLIC_KEY"] = pub
+            if how in ("flags", "mixed") and a and a[0] == "redact":
+                a = a[:1] + ["--atlasPrivateKey", priv, "--atlasPublicKey", pub] + a[1:]
+            p = subprocess.run([b.cli] + a, cwd=d, env=env, stdin=subprocess.DEVNULL, capture_output=True, timeout=60)
+            n += 1
+            v.count()
+            arts = [("stdout", p.stdout), ("stderr", p.stderr)]
+            for fn in os.listdir(d):
+                fp = os.path.join(d, fn)
+                if os.path.isfile(fp):
+                    arts.append(("file " + fn, open(fp, "rb").read()))
+            for name, data in arts:
+                for fname, fv in forms.items():
+                    if fv.encode("utf-8") in data:
+                        v.violation("the private key appears (%s) in %s of a run that ends in a usage / help / rejection print [%s, key by %s]" % (fname, name, label, how),
+                                    {"args": a if how == "env" else "(key on the command line)", "exit": p.returncode, "where": name,
+                                     "excerpt": data.decode("utf-8", "replace")[max(0, data.find(fv.encode("utf-8")) - 200):][:500]})
+                        break
+            shutil.rmtree(d, ignore_errors=True)
+    return n
+
+
 def run(tier):
     v = common.Verdict(PID, tier, "model_checking")
     b = common.build()
@@ -22,7 +67,7 @@ def run(tier):
     t = ar.run_atlas_mc(maxh, AUTHS, ("none", "status", "reset", "cut", "notgzip", "outdir"))
     envs = {}
     for r in t.records:
-        envs.setdefault(json.dumps([r["n"], r["auth"], r["fault"], r["cli"]], sort_keys=True), r)
+        envs.setdefault(json.dumps([r["n"], r["auth"], r["fault"], r["cli"], r.get("keyOk", True)], sort_keys=True), r)
     recs = list(envs.values())
     pool = sl.Pool(v.seed)
     root = tempfile.mkdtemp(prefix="c20-", dir=b.root)
@@ -68,12 +113,13 @@ def run(tier):
         owners.append(what)
         if rec["auth"] == "reject" and obs["level"] == "cli":
             v.sample({"scenario": what, "stderr": rep["stderr"][:300], "requests": rep["requests"]}, limit=1)
+    nusage = usage_runs(b, v, root)
     acc, rej, tstates = sl.validate_traces(traces, module="AtlasTrace", cfg="AtlasTrace.cfg", timeout=1500, max_rounds=15)
     for ti, ei, ev, why in rej:
         v.spec_drift({"trace_of": owners[ti], "rejected_at_event": ei, "event": ev, "trace": traces[ti][:12]})
     shutil.rmtree(root, ignore_errors=True)
     v.cov.update({"states": t.distinct + tstates, "transitions": t.generated, "traces_validated_against_impl": acc, "traces_rejected": len(rej),
-                  "exhaustive": True, "environments": len(recs), "runs": len(work), "server_behaviours": list(AUTHS), "key_supplied_by": keyways + ["library arguments"],
+                  "exhaustive": True, "environments": len(recs), "runs": len(work), "usage_and_help_runs": nusage, "server_behaviours": list(AUTHS), "key_supplied_by": keyways + ["library arguments"],
                   "encodings_scanned": sorted(ar.key_forms("x" * 8, "y").keys()),
                   "rule": "every terminal state of AtlasMC over 5 server behaviours x fault kinds (status 401/403/404/500 echoing the request head, reset, body cut, "
                           "redaction failure, output path failure) x positions, CLI with the key by flag / environment / mixed and library level; 4 key shapes (URL- "
